@@ -947,7 +947,11 @@ namespace plan
         return obst;
     }
 
-    static json runOne(const RunSpec &rs)
+    // One run = one fresh planner on one problem.  The first report describes the first solve().  Half of the runs with
+    // a non-trivial budget then CONTINUE: up to two further solve() calls on the same planner and problem definition
+    // (no clear()), each with its own report (`resumed`), which lists the solution paths that call added - "whenever a
+    // control-based planner reports a solution" includes the solutions of a resumed search.
+    static std::vector<json> runOne(const RunSpec &rs)
     {
         const double thr = thresholdOf(rs.thr);
         const double gx = (rs.goalCell % W) + 0.5, gy = (rs.goalCell / W) + 0.5;
@@ -956,47 +960,67 @@ namespace plan
 
         ompl::RNG::setSeed((std::uint_fast32_t)rs.seed);   // before any RNG of this run exists
 
-        json ev{{"e", "SolveReport"}, {"run", rs.run}, {"spec", rs.text}, {"planner", rs.planner}, {"system", rs.system},
-                {"layout", rs.layout}, {"W", W}, {"H", H}, {"startCell", rs.startCell}, {"goalCell", rs.goalCell},
-                {"thr", rs.thr}, {"thrMicro", micro(thr)}, {"minD", rs.minD}, {"maxD", rs.maxD},
-                {"stepMicro", rs.stepMicro}, {"dcs", rs.dcs}, {"budget", rs.budget}, {"seed", rs.seed}};
+        std::vector<json> out;
+        json base{{"e", "SolveReport"}, {"run", rs.run}, {"spec", rs.text}, {"planner", rs.planner}, {"system", rs.system},
+                  {"layout", rs.layout}, {"W", W}, {"H", H}, {"startCell", rs.startCell}, {"goalCell", rs.goalCell},
+                  {"thr", rs.thr}, {"thrMicro", micro(thr)}, {"minD", rs.minD}, {"maxD", rs.maxD},
+                  {"stepMicro", rs.stepMicro}, {"dcs", rs.dcs}, {"budget", rs.budget}, {"seed", rs.seed}};
         json metrics = json::object();
         {
             Lab lab(rs.system, rs.obst, rs.stepMicro, rs.minD, rs.maxD, rs.dcs);
-            ev["obst"] = obstList(lab.map);
-            ev["startValid"] = ownValid(lab.sys, lab.map, start);
-            ev["goalValid"] = ownValid(lab.sys, lab.map, goalState);
+            base["obst"] = obstList(lab.map);
+            base["startValid"] = ownValid(lab.sys, lab.map, start);
+            base["goalValid"] = ownValid(lab.sys, lab.map, goalState);
             auto pdef = lab.makePdef(start, gx, gy, thr);
             ob::PlannerPtr planner = lab.makePlanner(rs.planner);
             planner->setProblemDefinition(pdef);
             planner->setup();
 
-            long evals = 0;
-            const long budget = rs.budget;
-            ob::PlannerTerminationCondition ptc([&evals, budget] { return ++evals > budget; });
-            ob::PlannerStatus status = planner->solve(ptc);
+            const int nsolves = (rs.budget >= 100 && rs.budget <= 6000 && rs.seed % 2 == 0) ? 3 : 1;
+            std::set<const ob::Path *> known;
+            for (int call = 0; call < nsolves; ++call)
+            {
+                json ev = base;
+                long evals = 0;
+                const long budget = rs.budget;
+                ob::PlannerTerminationCondition ptc([&evals, budget] { return ++evals > budget; });
+                ob::PlannerStatus status = planner->solve(ptc);
 
-            ev["status"] = statusName(status);
-            ev["statusCode"] = (int)(ob::PlannerStatus::StatusType)status;
-            ev["nAdded"] = (long)pdef->getSolutionCount();
-            ev["evals"] = vt::tlcInt(evals);
-            json paths = json::array();
-            long libCheckDisagree = 0;
-            for (const auto &sol : pdef->getSolutions())
-                paths.push_back(solutionFacts(lab, rs.minD, rs.maxD, start, gx, gy, thr, sol, metrics, libCheckDisagree));
-            ev["paths"] = paths;
-            ev["hasExact"] = pdef->hasExactSolution();
-            ev["hasApprox"] = pdef->hasApproximateSolution();
-            ev["libCheckDisagree"] = libCheckDisagree;
-            ev["validCalls"] = vt::tlcInt(lab.validCalls);
-            ev["propCalls"] = vt::tlcInt(lab.propCalls);
+                ev["status"] = statusName(status);
+                ev["statusCode"] = (int)(ob::PlannerStatus::StatusType)status;
+                ev["resumed"] = call > 0;
+                ev["call"] = call;
+                ev["evals"] = vt::tlcInt(evals);
+                json paths = json::array();
+                long libCheckDisagree = 0;
+                for (const auto &sol : pdef->getSolutions())
+                {
+                    if (known.count(sol.path_.get()))
+                        continue;   // reported with the call that added it
+                    known.insert(sol.path_.get());
+                    paths.push_back(solutionFacts(lab, rs.minD, rs.maxD, start, gx, gy, thr, sol, metrics, libCheckDisagree));
+                }
+                ev["nAdded"] = (long)paths.size();
+                ev["paths"] = paths;
+                ev["hasExact"] = pdef->hasExactSolution();
+                ev["hasApprox"] = pdef->hasApproximateSolution();
+                ev["libCheckDisagree"] = libCheckDisagree;
+                ev["validCalls"] = vt::tlcInt(lab.validCalls);
+                ev["propCalls"] = vt::tlcInt(lab.propCalls);
+                out.push_back(ev);
+                if (status == ob::PlannerStatus::INVALID_START || status == ob::PlannerStatus::INVALID_GOAL)
+                    break;
+            }
+            // the solution paths stay alive until here: `known` compares addresses
             pdef->clearSolutionPaths();
             planner->clear();
             planner.reset();
             pdef.reset();
-            ev["statesLeakedBeforeTeardown"] = lab.counter->net();
+            out.back()["statesLeakedBeforeTeardown"] = lab.counter->net();
+            for (std::size_t i = 0; i + 1 < out.size(); ++i)
+                out[i]["statesLeakedBeforeTeardown"] = 0;
         }
-        return ev;
+        return out;
     }
 
     // per-run watchdog on CPU time (never wall clock: the machine may be arbitrarily loaded)
@@ -1057,10 +1081,13 @@ namespace plan
                 return 3;
             }
             armWatchdog(RUN_CPU_LIMIT_S);
-            json ev = runOne(rs);
+            std::vector<json> evs = runOne(rs);
             armWatchdog(0);
-            ++byStatus[ev["status"].get<std::string>()];
-            tr.emit(ev);
+            for (auto &ev : evs)
+            {
+                ++byStatus[ev["status"].get<std::string>()];
+                tr.emit(ev);
+            }
             tr.flush();
             ++n;
         }
